@@ -46,8 +46,7 @@ INV = '''
         pointer < ops.len(), ops.len() == ops@.len(),
         op_tag(ops@[pointer as int]) == tag0, tag0 == DiffTag::Insert || tag0 == DiffTag::Delete,
         inv_pre(old, new, ops@, bw), inv_post(old, new, ops0, ops@),
-        inv_exact(old, new, ops0, ops@),   // [C11]
-'''
+        inv_exact(old, new, ops0, ops@),   // [C11]'''
 EXIT = '''
 proof { lemma_inv_exit(old, new, ops0, ops@); }
 '''
